@@ -188,6 +188,30 @@ Definition observe_package (fuel : nat) (st : state) (ts : list trigger) : optio
   | None => None
   end.
 
+(* ObservePackage in general: buildPkgInferenceMap is called twice, first for all triggers but the error-return
+   dependent ones, then for those (after FilterTriggersForErrorReturn).  The table of controlled triggers ACCUMULATES over
+   the two calls (repair of finding F28): a controller determined while the second batch is observed still activates the
+   controlled triggers of the first. *)
+Definition build_pkg_more_work (st : state) (ts : list trigger) : state * list item :=
+  let ctl' := ctl st ++ filter controlled ts in
+  let activated := filter (is_det_true (mp st)) (dedup (ctrl_sites ts) []) in
+  (set_ctl st ctl',
+   flat_map (fun s => map ITrig (controlled_by ctl' s)) activated ++
+   map ITrig (filter (fun t => negb (controlled t)) ts)).
+
+Definition observe_package2 (fuel : nat) (st : state) (ts1 ts2 : list trigger) : option state :=
+  match build_pkg fuel st ts1 with
+  | Some st1 => let '(st', work) := build_pkg_more_work st1 ts2 in run fuel st' work
+  | None => None
+  end.
+
+(* the behaviour before the repair: the second call REPLACES the table *)
+Definition observe_package2_reset (fuel : nat) (st : state) (ts1 ts2 : list trigger) : option state :=
+  match build_pkg fuel st ts1 with
+  | Some st1 => build_pkg fuel st1 ts2
+  | None => None
+  end.
+
 (* ---- chooseSitesToExport ---- *)
 Section Export.
   Variable exported : site -> bool.
